@@ -4,5 +4,9 @@ package handlers
 
 // Accessors for the /verif harness (C02): session bookkeeping.
 func (h *ServerHandler) VerifC02Active() int32 { return h.activeCommands }
-func (h *ServerHandler) VerifC02Queued() int   { return len(h.lines) + len(h.serverMessages) + len(h.maprMessages) }
-func (h *ServerHandler) VerifC02SetModes(plain, serverless bool) { h.plain, h.serverless = plain, serverless }
+func (h *ServerHandler) VerifC02Queued() int {
+	return len(h.lines) + len(h.serverMessages) + len(h.maprMessages)
+}
+func (h *ServerHandler) VerifC02SetModes(plain, serverless bool) {
+	h.plain, h.serverless = plain, serverless
+}
